@@ -18,8 +18,18 @@ BASE = {"uint": "A_UINT32", "int": "A_INT32", "f32": "A_FLOAT32", "f64": "A_FLOA
         "ascii": "A_ASCIISTRING", "utf8": "A_UTF8STRING", "ucs2": "A_UNICODE2STRING"}
 
 
-def run_model(tier: str) -> Tuple[tlc.TlcResult, List[Dict[str, Any]]]:
-    res = tlc.run("MC_Codec.tla", f"MC_Codec_{tier}.cfg", timeout=6000, heap="12g")
+class _NoneValue:
+    """explicit None cannot be told from an omitted parameter, so C04 uses a foreign object instead"""
+
+    def __repr__(self) -> str:
+        return "<object()>"
+
+
+BAD: Dict[str, Any] = {"str": "12", "float": 1.5, "bytes": b"\x01", "none": _NoneValue(), "list": [1], "dict": {"x": 1}}
+
+
+def run_model(tier: str, variant: str = "") -> Tuple[tlc.TlcResult, List[Dict[str, Any]]]:
+    res = tlc.run("MC_Codec.tla", f"MC_Codec_{variant}{tier}.cfg", timeout=6000, heap="12g")
     if not res.ok or res.distinct == 0:
         raise tlc.MachineryError(f"TLC failed on Codec: {res.violated} {res.errors[:3]}\n{res.stdout[-3000:]}")
     recs = list(res.json_lines())
@@ -176,12 +186,16 @@ def atom_py(v: Dict[str, Any], dct: Optional[Dict[str, Any]]) -> Any:
         return v["s"]
     if t == "missing":
         return None
+    if t == "bad":
+        return BAD[v["name"]]
     raise tlc.MachineryError(f"value tag {t}")
 
 
 def dop_py(d: Dict[str, Any], v: Dict[str, Any]) -> Any:
     if v["t"] == "missing":
         return None
+    if v["t"] == "bad":
+        return BAD[v["name"]]
     k = d.get("k")
     if k == "simple":
         return atom_py(v, d["dct"])
@@ -196,6 +210,9 @@ def dict_py(ps: List[Dict[str, Any]], v: Dict[str, Any]) -> Dict[str, Any]:
     byname = {p["n"]: p for p in ps}
     out: Dict[str, Any] = {}
     for (name, val) in v["v"]:
+        if name not in byname:
+            out[name] = atom_py(val, None)      # a parameter the description does not know
+            continue
         p = byname[name]
         if val["t"] == "missing":
             out[name] = None
